@@ -165,9 +165,18 @@ def run(ctx) -> None:
     pc = PathCond(cfg)
     ynode = cfg.node_containing(ys[0])
     ycond = pc.reach(ynode).drop_unused()
-    over_atoms = [a for a in ycond.atoms if "_has_overlap" in a]
-    ctx.check("R3", len(ycond.atoms) == 1 and len(over_atoms) == 1 and ycond.equiv(~BF.var(over_atoms[0])),
-              f"iter_matches: a match is yielded iff it does not overlap an earlier match  [{ycond.to_dnf()}]",
+
+    def ycls(leaf: ast.AST) -> T.Tuple[str, bool]:
+        if isinstance(leaf, ast.Call) and unparse(leaf.func).endswith("_has_overlap"):
+            return "OVERLAP", True
+        raise AnalysisError(f"C03/R3: yield condition leaf not enumerated: {unparse(leaf)[:60]}")
+    try:
+        ysem = shapes.semantic_bf(ycond, im, ycls, prog)
+        y_ok = ysem.equiv(~BF.var("OVERLAP"))
+    except AnalysisError:
+        ysem, y_ok = ycond, False
+    ctx.check("R3", y_ok,
+              f"iter_matches: a match is yielded iff it does not overlap an earlier match  [{ysem.to_dnf()}]",
               "parse.iter_matches: matches are suppressed by something other than the overlap test",
               f"yield condition: {ycond.to_dnf()}", loc=im.loc(ys[0]))
     # overlap predicate
@@ -177,21 +186,11 @@ def run(ctx) -> None:
     hpc = PathCond(hcfg)
     rn = hcfg.node_containing(rets[0].value)
     cond = hpc.reach(rn)
-    # substitute the single-assignment flag
-    test_expr = None
-    for a in cond.drop_unused().atoms:
-        tree = ast.parse(a, mode="eval").body
-        if isinstance(tree, ast.Name):
-            d = shapes.single_def(ho, tree.id)
-            if d is not None:
-                test_expr = d
-        else:
-            test_expr = tree if test_expr is None else test_expr
-    ctx.require(test_expr is not None, "_has_overlap: overlap expression not found")
-    needle, hay = ho.params[0], None
+    needle = ho.params[0]
     span_var = [n for n in walk_no_nested(ho.node) if isinstance(n, ast.For)]
     ctx.require(len(span_var) == 1 and isinstance(span_var[0].target, ast.Name), "_has_overlap loop shape changed")
     sv = span_var[0].target.id
+    test_expr = rets[0]
 
     def classify(leaf: ast.AST) -> T.Tuple[str, bool]:
         cs = shapes.compare_shape(leaf)
@@ -214,7 +213,7 @@ def run(ctx) -> None:
             return "END_GE_START", False
         raise AnalysisError(f"C03/R3: overlap leaf not enumerated: {unparse(leaf)}")
 
-    ov = shapes.bool_expr_bf(test_expr, classify)
+    ov = shapes.semantic_bf(cond, ho, classify, prog)
     spec = BF.var("SAME_LINE") & BF.var("START_LE_END") & BF.var("END_GE_START")
     ctx.check("R3", ov.equiv(spec), "_has_overlap: same line and both interval conditions",
               "parse._has_overlap: predicate is not 'same line and intervals intersect'",
